@@ -57,3 +57,4 @@ LEVEL = {
 CFG['rule'] = CFG['rule'] + ' ' + 'The owner (topK = 1) is judged for every key, on the listed and on the reversed server list, plus an owner stream of 40 (thorough: 400) keys on each of five server sets of 2..6 servers.'
 
 CFG['rule'] = CFG['rule'] + ' ' + "The translator also demands that a node's server list is the configured one (`Servers: config.Servers`, assigned once)."
+CFG['rule'] = CFG['rule'] + ' ' + 'One live node of a three-server configuration is started alone; after requests for twelve user ids (those owned by the absent servers fail) the list it routes with and the owner computed from it are compared with the configured list (CNode, codes 151/152).'
